@@ -68,6 +68,52 @@ fn ref_offset_ns(ts: TimeScale) -> i128 {
     }
 }
 
+/// Date and time of day of the label that lies `t` ns after 1900-01-01T00:00:00 (inverse of days_from_1900, by search).
+fn civil_of_count(t: i128) -> (i64, i64, i64, i64, i64, i64, i64) {
+    let days = t.div_euclid(NPD) as i64;
+    let tod = t.rem_euclid(NPD);
+    let mut y = 1900 + (days as f64 / 365.2425).floor() as i64;
+    while days_from_1900(y, 1, 1) > days {
+        y -= 1;
+    }
+    while days_from_1900(y + 1, 1, 1) <= days {
+        y += 1;
+    }
+    let mut m = 1;
+    while m < 12 && days_from_1900(y, m + 1, 1) <= days {
+        m += 1;
+    }
+    let d = days - days_from_1900(y, m, 1) + 1;
+    let (h, mi, sec, ns) = tod_fields(tod);
+    (y, m, d, h, mi, sec, ns)
+}
+
+/// Labels at the word-size thresholds of the counts an implementation may form on the way: nanoseconds (2^63, 2^64),
+/// seconds (2^31, 2^32) and days (2^15, 2^16) from 1900-01-01 of the label's own calendar, and from the scale's own
+/// reference date-time; around each threshold to the nanosecond and to the end of that second.
+fn word_size_block_c08(out: &mut dyn Write) {
+    let mut k = 0usize;
+    let thresholds: [i128; 6] = [1i128 << 63, 1i128 << 64, (1i128 << 31) * 1_000_000_000, (1i128 << 32) * 1_000_000_000, (1i128 << 15) * NPD, (1i128 << 16) * NPD];
+    for th in thresholds {
+        for sgn in [1i128, -1] {
+            for ts in SCALES.iter() {
+                for base in [0i128, ref_offset_ns(*ts)] {
+                    let t0 = base + sgn * th;
+                    let to_end = 999_999_999 - t0.rem_euclid(1_000_000_000);
+                    for dl in [-1_000_000_000i128, -1, 0, 1, to_end, to_end + 1, 1_000_000_000] {
+                        // thin the rotation: every scale sees every threshold, the offsets rotate
+                        k += 1;
+                        if base != 0 && k % 2 == 0 {
+                            continue;
+                        }
+                        writeln!(out, "greg {} {}", f7(civil_of_count(t0 + dl)), ts2s(*ts)).unwrap();
+                    }
+                }
+            }
+        }
+    }
+}
+
 fn tod_fields(t: i128) -> (i64, i64, i64, i64) {
     let ns = (t % 1_000_000_000) as i64;
     let s = t / 1_000_000_000;
@@ -265,6 +311,7 @@ fn cross_product_c08(out: &mut dyn Write) {
 
 pub fn inputs_c08(r: &mut Rng, n: usize, tier: &str, out: &mut dyn Write) {
     boundary_block_c08(out);
+    word_size_block_c08(out);
     if tier == "thorough" && n >= 40_000 {
         // Exhaustive part, sharded by the seed (the orchestrator runs seeds s, s+1, …, s+7):
         // every month of the years 0001-9999, all 31 day numbers, at 00:00:00.0 in TAI and at
@@ -396,6 +443,23 @@ fn boundary_block_c09(out: &mut dyn Write) {
                 for t in [0i128, 1, NPD / 2, LAST_NS] {
                     writeln!(out, "to_greg_tai {}", estr(total_of(y, m, d, t, TimeScale::TAI), TimeScale::TAI)).unwrap();
                     writeln!(out, "to_greg_utc {}", estr(total_of(y, m, d, t, TimeScale::UTC), TimeScale::UTC)).unwrap();
+                }
+            }
+        }
+    }
+    // word-size thresholds of the counts (2^63, 2^64 ns; 2^31, 2^32 s; 2^15, 2^16 days) from each scale's own zero
+    // and from 1900-01-01 of its calendar
+    for th in [1i128 << 63, 1i128 << 64, (1i128 << 31) * 1_000_000_000, (1i128 << 32) * 1_000_000_000, (1i128 << 15) * NPD, (1i128 << 16) * NPD] {
+        for sgn in [1i128, -1] {
+            for ts in SCALES.iter() {
+                for base in [0i128, -ref_offset_ns(*ts)] {
+                    for dt in [-1i128, 0, 1] {
+                        k += 1;
+                        let op = ["display", "to_greg_tai", "to_greg_utc", "year", "dur_in_year"][k % 5];
+                        // the two tuple accessors are observed on epochs held in their own scale
+                        let ts2 = match op { "to_greg_tai" => TimeScale::TAI, "to_greg_utc" => TimeScale::UTC, _ => *ts };
+                        writeln!(out, "{} {}", op, estr(base + sgn * th + dt, ts2)).unwrap();
+                    }
                 }
             }
         }
